@@ -10,7 +10,7 @@ use crate::gen::{gen_inline_log, gen_op};
 use crate::observe::*;
 use crate::ops::*;
 use crate::rng::Rng;
-use crate::seams::{self, YieldMode};
+use crate::seams::{self, IterB, YieldMode};
 use crate::spec::*;
 use crate::stmt::*;
 use sea_query::SelectStatement;
@@ -204,7 +204,19 @@ pub fn gen_scenario(r: &mut Rng, small: bool) -> Scenario {
 /// `force`: Some(0) = only S1 pipelines (no two threads ever run at the same time: build on one
 /// thread, mutate on the next, render on the last — deterministic also on real threads)
 pub fn gen_scenario_kind(r: &mut Rng, small: bool, force: Option<usize>) -> Scenario {
-    let fam = if r.pct(if small { 80 } else { 35 }) { Family::Select } else { *r.pick(ALL_FAMILIES) };
+    let fam = if small {
+        match r.below(20) {
+            0..=11 => Family::Select,
+            12..=16 => Family::Insert,
+            _ => *r.pick(ALL_FAMILIES),
+        }
+    } else if r.pct(35) {
+        Family::Select
+    } else if r.pct(10) {
+        Family::Insert
+    } else {
+        *r.pick(ALL_FAMILIES)
+    };
     let depth = if small { 1 } else { 2 };
     let mut base = gen_inline_log(r, fam, depth, true);
     if small && fam == Family::Select {
@@ -239,6 +251,19 @@ pub fn gen_scenario_kind(r: &mut Rng, small: bool, force: Option<usize>) -> Scen
                 ))));
             }
         }
+    }
+    if fam == Family::Insert && (small || r.coin()) {
+        // an INSERT template that already holds rows: its clones are extended concurrently
+        let a = |n: &str| IdenSpec {
+            n: n.to_string(),
+            slot: None,
+            alias: n.len() % 2 == 0,
+        };
+        let cell = |k: i32| ExprSpec::Val(ValSpec::Int(Some(k)));
+        base.ops.clear();
+        base.ops.push(Op::Ins(InsOp::IntoTable(TableRefSpec::Table(a("glyph")))));
+        base.ops.push(Op::Ins(InsOp::Columns(vec![a("id"), a("name")], IterB::Honest)));
+        base.ops.push(Op::Ins(InsOp::Values(vec![cell(0), ExprSpec::Val(ValSpec::Str(Some("header".into())))], IterB::Honest)));
     }
     let hi = if small { 2 } else { 5 };
     // the small (Miri) mix favours scenarios in which several threads render shared structure
@@ -299,8 +324,24 @@ pub fn gen_scenario_kind(r: &mut Rng, small: bool, force: Option<usize>) -> Scen
         2 => {
             let n = r.range(if small { 2 } else { 1 }, 3);
             let branches = (0..n)
-                .map(|_| Branch {
-                    ops: gen_ops(r, fam, 0, hi, &base.ops),
+                .enumerate()
+                .map(|(bi, _)| Branch {
+                    ops: {
+                        let mut ops = gen_ops(r, fam, 0, hi, &base.ops);
+                        if fam == Family::Insert {
+                            let mut all = base.ops.clone();
+                            all.extend(ops.iter().cloned());
+                            let cols = crate::gen::ins_cols(&all);
+                            let select_source = all.iter().any(|o| matches!(o, Op::Ins(InsOp::SelectFrom(..))));
+                            for k in 0..(if select_source { 0 } else { r.range(1, 3) }) {
+                                ops.push(Op::Ins(InsOp::Values(
+                                    (0..cols).map(|c| ExprSpec::Val(ValSpec::Int(Some((bi * 100 + k * 10 + c) as i32)))).collect(),
+                                    IterB::Honest,
+                                )));
+                            }
+                        }
+                        ops
+                    },
                     compose: if fam == Family::Select { r.below(3) as u8 } else { 0 },
                     panics: r.pct(15),
                     take_first: fam.has_take() && r.pct(30),
